@@ -463,7 +463,7 @@ func (env *Env) call(x *SExpr) SV {
 		need(1)
 		v := arg(0)
 		a0 := env.old.A
-		return mathBool(c.B("(or (= %s 0) (<= %s %s))", v.t[0], a0, v.t[0]))
+		return mathBool(c.B("(or (= %s 0) (and (<= %s %s) (< %s %s)))", v.t[0], a0, v.t[0], v.t[0], env.cur.A))
 	case "isold":
 		need(1)
 		return mathBool(c.B("(< %s %s)", arg(0).t[0], env.old.A))
